@@ -75,3 +75,10 @@ Proof.
   exact (ConvertModel_render_total_all c src t Hsrc Ht).
 Qed.
 End TotalCompose.
+
+(* the totality of the inline phase (ParseInlineTotal.v) instantiates the section above *)
+Require Import GM.proofs.ParseInlineTotal.
+Theorem ParseTree_total_all : forall src, bytes_ok src -> exists t, ParseTree src = Ok t.
+Proof. exact (ParseTree_total InlineChildren_total). Qed.
+Theorem ConvertModel_total_all : forall c src, bytes_ok src -> exists o, ConvertModel c src = Ok o.
+Proof. exact (ConvertModel_total InlineChildren_total). Qed.
